@@ -85,7 +85,8 @@ def main():
         if keep and ok:
             dst = os.path.join(VERIF, "benign", keep)
             os.makedirs(dst, exist_ok=True)
-            shutil.copy(os.path.join(src, "patch.diff"), dst)
+            if os.path.abspath(src) != os.path.abspath(dst):
+                shutil.copy(os.path.join(src, "patch.diff"), dst)
             meta["evaluated"] = {"existing_tests": logs, "checks": res["checks"], "silent": res["silent"],
                                  "how": "lib/benigneval.py %s <dir> --ids %s" % (pid, ",".join(ids))}
             json.dump(meta, open(os.path.join(dst, "meta.json"), "w"), indent=1)
